@@ -246,8 +246,8 @@ def option_consumers(run, ctx):
             run.violation(fam, label, "casei-not-parsed", H.where(no),
                           "Regex::new_options does not hand the builder's case-insensitive setting to the parser: the VM compares literals byte-wise, so on fancy patterns the option would be ignored (found %s)" % [H.canon(c)[:60] for c in calls])
         # both construction paths use the same options object
-        ci_calls = [nd for nd in H.walk(no["body"]) if nd.get("k") == "Call" and H.canon(nd).startswith("compile::compile_inner(")]
-        cw = [nd for nd in H.walk(no["body"]) if nd.get("k") == "Call" and H.canon(nd).startswith("compile_with_options(") or nd.get("k") == "Call" and H.canon(nd).startswith("compile::compile_with_options(")]
+        ci_calls = [nd for nd in H.walk(no["body"]) if nd.get("k") == "Call" and H.canon(nd).startswith("compile_inner(")]
+        cw = [nd for nd in H.walk(no["body"]) if nd.get("k") == "Call" and H.canon(nd).startswith("compile_with_options(")]
         n += 2
         if not ci_calls or H.canon(ci_calls[0]["args"][1]) != O:
             run.violation(fam, label, "wrap-options", H.where(no), "whole-pattern hand-off is not compiled with the user's options")
